@@ -116,6 +116,8 @@ def check_header(w, m, hdr, oid, feats):
         return
     user = m["hdr"] or {}
     for k, v in user.items():
+        if isinstance(k, str) and k.startswith("_"):
+            continue        # reserved names belong to the writer: what the caller passed for them is not promised back
         if k not in hdr:
             run.fail(oid, dict(feats, what="user-key-missing"), "user header key %r missing after read back" % k)
             return
@@ -176,9 +178,24 @@ def check_durable(w, p, oid):
         if hd is not None and w.prop in ("C01", "C03", "C04"):
             user = m["hdr"] or {}
             for k, v in user.items():
+                if isinstance(k, str) and k.startswith("_"):
+                    continue
                 if k not in hd or not T.header_equal(hd[k], v):
                     run.fail(oid, dict(feats, what="header-user"), "header stored in %s lost or changed user key %r (%r -> %r)" % (p, k, v, hd.get(k)))
                     return
+            # the stored dtype description must be the written table's, whatever the caller's dict said about it
+            try:
+                dts = np.dtype(hd["_DTYPE"]) if not isinstance(hd.get("_DTYPE"), str) else np.dtype(hd["_DTYPE"])
+                want = m["dtype"] if m["delim"] is None else T.to_native(np.zeros(0, m["dtype"])).dtype
+                if m["delim"] is not None:
+                    dts = T.to_native(np.zeros(0, dts)).dtype
+                bad = T.descr_of(dts) != T.descr_of(want)
+            except Exception:
+                bad = True
+            if bad:
+                run.fail(oid, dict(feats, what="header-_DTYPE"), "the _DTYPE stored in %s is %r; the table written has %r"
+                         % (p, hd.get("_DTYPE"), T.descr_of(m["dtype"])))
+                return
         data = ps["data"]
         m["data_start"] = ps["data_start"]
     else:
@@ -349,6 +366,21 @@ def op_create(w, op, mods):
     delim = op.get("delim")
     tab = w.table(op["tab"], "txt" if delim else "bin", delim)
     hdr = op.get("hdr") if form == "sfile" else None
+    src = op.get("hdr_from")
+    if src is not None and form == "sfile":
+        # history: the header dict handed to this write was READ from an earlier file (so it carries that
+        # file's reserved entries: _DTYPE, _SIZE, _DELIM, _VERSION ...) and extended with the user's keys
+        ms = w.files.get(src)
+        if ms is not None and ms["form"] == "sfile" and ms.get("writers", 0) == 0 and os.path.exists(w.path(src)):
+            try:
+                base = mods["sfile"].read_header(w.path(src))
+            except Exception:
+                base = None
+            if isinstance(base, dict):
+                merged = dict(base)
+                merged.update(hdr or {})
+                hdr = merged
+                run.fault("header_dict_read_from_an_earlier_file")
     existed = os.path.exists(w.path(p))
     if existed:
         if old is None:
@@ -377,6 +409,15 @@ def op_create(w, op, mods):
         _forget(w, p)
         run.event(op.get("c", 0), "create", p, "error(%s)" % type(e).__name__)
         run.trans.add("%s|create|%s|error" % (st, op["entry"]))
+        if guard is not None:
+            # a rejected write must leave the caller's table alone as well
+            run.checks += 1
+            run.fault("write_rejected_with_guarded_table")
+            bad = present.changed(guard, run)
+            if bad:
+                run.fail("own.rec.write", {"entry": op["entry"], "text": bool(delim), "present": guard["kind"], "outcome": "rejected"},
+                         "%s (%s) raised %r and left the caller's table modified (%s): %s"
+                         % (op["entry"], "text" if delim else "binary", e, guard["kind"], bad))
         if w.prop in ("C01", "C03", "C04"):
             run.fail("rec.create.raises", feats, "%s(%s, table %s x %d rows, header=%r, delim=%r) raised %r"
                      % (op["entry"], p, T.descr_of(tab.dtype), tab.shape[0], hdr, delim, e))
@@ -660,12 +701,16 @@ def op_write(w, op, mods):
         err = None
     except Exception as e:
         err = e
-    if guard is not None and err is None:
+    if guard is not None:
         run.checks += 1
+        if err is not None:
+            run.fault("write_rejected_with_guarded_table")
         bad = present.changed(guard, run)
         if bad:
-            run.fail("own.rec.write", {"entry": h["kind"] + ".write", "text": bool(delim), "present": guard["kind"]},
-                     "%s.write (%s) modified the caller's table (%s): %s" % (h["kind"], "text" if delim else "binary", guard["kind"], bad))
+            run.fail("own.rec.write", {"entry": h["kind"] + ".write", "text": bool(delim), "present": guard["kind"],
+                                       "outcome": "ok" if err is None else "rejected"},
+                     "%s.write (%s)%s modified the caller's table (%s): %s"
+                     % (h["kind"], "text" if delim else "binary", "" if err is None else " raised %r and" % (err,), guard["kind"], bad))
     if ok_expected:
         if err is not None:
             h["last"] = "error"
@@ -702,6 +747,53 @@ def op_write(w, op, mods):
                 w.files[p] = None
                 return
             # the bytes are judged after close: the model holds only the accepted chunks
+
+
+def op_write_ro(w, op, mods):
+    """C15: a write attempted through an object opened in mode 'r' (rejected); the caller's table is watched."""
+    run = w.run
+    p = op["p"]
+    m = _need_file(w, p)
+    if m.get("writers", 0) > 0:
+        raise Skip("writer open")
+    delim = m["delim"]
+    tab = w.table(op["tab"], "txt" if delim else "bin", delim)
+    arg, guard = present.make(tab, op.get("present"))
+    kind = "SFile" if m["form"] == "sfile" else "Recfile"
+    try:
+        if kind == "SFile":
+            obj = mods["sfile"].SFile(w.path(p), "r")
+        else:
+            obj = mods["recfile"].Recfile(w.path(p), "r", dtype=m["dtype"], **({"delim": delim} if delim else {}))
+    except Exception as e:
+        raise Skip("cannot open: %r" % (e,))
+    err = None
+    before = w.raw(p)
+    try:
+        try:
+            if kind == "SFile":
+                obj.write(arg)
+            else:
+                obj.write(arg)
+        except Exception as e:
+            err = e
+    finally:
+        try:
+            obj.close()
+        except Exception:
+            pass
+    run.event(op.get("c", 0), "write_ro", p, "rejected" if err is not None else "accepted")
+    run.checks += 1
+    run.fault("write_through_read_only_object")
+    bad = present.changed(guard, run)
+    if bad:
+        run.fail("own.rec.write", {"entry": kind + "(r).write", "text": bool(delim), "present": guard["kind"],
+                                   "outcome": "ok" if err is None else "rejected"},
+                 "%s opened with mode 'r': write (%s)%s modified the caller's table (%s): %s"
+                 % (kind, "text" if delim else "binary", "" if err is None else " raised %r and" % (err,), guard["kind"], bad))
+    if err is None and w.raw(p) != before:
+        # the file changed under a read-only object: the model no longer describes it
+        _forget(w, p)
 
 
 def op_close(w, op, mods):
@@ -788,12 +880,16 @@ def op_append(w, op, mods):
         raise
     except Exception as e:
         err = e
-    if guard is not None and err is None:
+    if guard is not None:
         run.checks += 1
+        if err is not None:
+            run.fault("write_rejected_with_guarded_table")
         bad = present.changed(guard, run)
         if bad:
-            run.fail("own.rec.write", {"entry": entry, "text": bool(delim), "present": guard["kind"]},
-                     "%s (%s) modified the caller's table (%s): %s" % (entry, "text" if delim else "binary", guard["kind"], bad))
+            run.fail("own.rec.write", {"entry": entry, "text": bool(delim), "present": guard["kind"],
+                                       "outcome": "ok" if err is None else "rejected"},
+                     "%s (%s)%s modified the caller's table (%s): %s"
+                     % (entry, "text" if delim else "binary", "" if err is None else " raised %r and" % (err,), guard["kind"], bad))
     if compatible:
         if not exists:
             run.fault("append_to_missing_file")
@@ -1271,4 +1367,4 @@ def op_hread_bad(w, op, mods):
 
 OPS = {"stale": op_stale, "create": op_create, "read": op_read, "header": op_header, "open_w": op_open_w,
        "write": op_write, "close": op_close, "append": op_append, "open_r": op_open_r,
-       "reopen_obj": op_reopen_obj, "hread": op_hread, "hread_bad": op_hread_bad}
+       "reopen_obj": op_reopen_obj, "hread": op_hread, "hread_bad": op_hread_bad, "write_ro": op_write_ro}
